@@ -42,6 +42,17 @@ def _rt(o):
     return None
 
 
+def _width(t):
+    """bit width of a non-negative integer term, asking the solver when the term layer does not know"""
+    b = tm.pbits(t)
+    if b is not None:
+        return b.bit_length()
+    for k in (8, 16, 32):
+        if E.valid(SymBool(tm.and_(tm.le(tm.const(0), t), tm.lt(t, tm.const(1 << k))))):
+            return k
+    raise tm.Unsupported('bitwise operation on an integer of unknown width')
+
+
 def wrap(t):
     if t.op == 'const':
         v = t.a[0]
@@ -305,14 +316,14 @@ class SymInt(object):
         if isinstance(o, int):
             if o >= 0:
                 return wrap(tm.band(self.t, o))
-            raise NotImplementedError('& with negative mask')
+            raise tm.Unsupported('& with negative mask')
         w = _it(o)
         if w is None:
             return NotImplemented
         b = tm.pbits(w)
         a = tm.pbits(self.t)
         if a is None or b is None or max(a, b).bit_length() > 24:
-            raise NotImplementedError('symbolic & symbolic without width')
+            raise tm.Unsupported('symbolic & symbolic without width')
         r = tm.const(0)
         for i in range(min(a, b).bit_length()):
             p, q = tm.imod(tm.idiv(self.t, 1 << i), 2), tm.imod(tm.idiv(w, 1 << i), 2)
@@ -325,7 +336,10 @@ class SymInt(object):
         w = _it(o)
         if w is None:
             return NotImplemented
-        return wrap(tm.bor(self.t, w))
+        try:
+            return wrap(tm.bor(self.t, w))
+        except tm.Unsupported:
+            return wrap(tm.bor(self.t, w, width=max(_width(self.t), _width(w))))
 
     __ror__ = __or__
 
